@@ -1,0 +1,15 @@
+//go:build verif
+// +build verif
+
+package pbft
+
+// VerifStopWAL stops the write-ahead log that NewConsensusState opened, for a ConsensusState that is
+// never started (a started one stops its WAL when the receive routine exits).  Used by the /verif
+// drivers that assemble a node in memory and discard it (build tag "verif").
+func (cs *ConsensusState) VerifStopWAL() {
+	cs.mtx.Lock()
+	defer cs.mtx.Unlock()
+	if cs.wal != nil {
+		cs.wal.Stop()
+	}
+}
